@@ -611,7 +611,7 @@ impl Property for C10 {
     type Scenario = Scenario;
 
     fn rule() -> String {
-        "seeded state-aware histories of 4-28 filesystem ops (open flag combinations, write_at/read_at with holes and overlaps, cursor read/write/seek, set_len both ways, rename onto new/existing names and across directories, remove+re-create, create_dir(_all)/remove_dir(_all), read_dir, metadata, sync_all/sync_data/sync_dir anywhere, virtual time advancing) over 10 nested path names on 1-2 hosts through the std shim, the tokio shim and io_uring; after EVERY op the return value and a full sweep (exists/kind/len/content/entry set of every path) are compared with an inode-based POSIX reference tree; each base history is also run with all sync ops deleted. Non-trivial: the history contains >=1 overwrite or truncate of existing data and >=1 namespace change (rename/remove) that succeeded; distinct = distinct digests of the (op kind, outcome kind) sequence. Added later: two-host scenarios run once more as host programs inside one turmoil::Sim (every other one with the hosts taking their turns in seeded random order); the name of a durable, handle-free file that was just removed is taken again by a truncating create, closed and removed again before the directory is flushed; bottom-up directory removals; the atomic-replace idiom.".into()
+        "seeded state-aware histories of 4-28 filesystem ops (open flag combinations, write_at/read_at with holes and overlaps, cursor read/write/seek, set_len both ways, rename onto new/existing names and across directories, remove+re-create, create_dir(_all)/remove_dir(_all), read_dir, metadata, sync_all/sync_data/sync_dir anywhere, virtual time advancing) over 10 nested path names on 1-2 hosts through the std shim, the tokio shim and io_uring; after EVERY op the return value and a full sweep (exists/kind/len/content/entry set of every path) are compared with an inode-based POSIX reference tree; each base history is also run with all sync ops deleted. Non-trivial: the history contains >=1 overwrite or truncate of existing data and >=1 namespace change (rename/remove) that succeeded; distinct = distinct digests of the (op kind, outcome kind) sequence. Added later: two-host scenarios run once more as host programs inside one turmoil::Sim (every other one with the hosts taking their turns in seeded random order); the name of a durable, handle-free file that was just removed is taken again by a truncating create, closed and removed again before the directory is flushed; bottom-up directory removals; the atomic-replace idiom. Round 11: try_clone of write-only append handles.".into()
     }
     fn components_real() -> Vec<&'static str> {
         vec!["turmoil-fs: Fs, enter/EnterCtx, shim::std::fs (File, OpenOptions, FileExt, free functions), shim::tokio::fs"]
